@@ -29,7 +29,7 @@ import (
 )
 
 type stmt struct {
-	op   byte   // 'D' define, 'S' assign n = n + 100, 'P' println(n), 'X' println(<caller argument>)
+	op   byte   // 'D' define (n := K), 'V' declare (var n: Int = K), 'S' assign n = n + 100, 'P' println(n), 'X' println(<caller argument>)
 	name string // a | b ("" for X)
 	unh  bool   // wrapped in unhygienic
 }
@@ -52,6 +52,10 @@ type prog struct {
 	arg    string // "" = the macro has no parameter
 	method bool   // call site inside a method body
 	probe  string // name read after the call although the caller never defined it
+	// layout variants (second family): they change nothing for a hygienic expansion
+	wrap  bool // the quoted body is wrapped in `if <call returning true>` … `end`
+	lateA bool // the caller declares `var a: Int` before the call and assigns/prints it only after the call
+	lateB bool
 }
 
 func (p prog) id() string {
@@ -63,7 +67,7 @@ func (p prog) id() string {
 	if p.method {
 		site = "method"
 	}
-	return fmt.Sprintf("[%s] caller{a:%v b:%v} arg=%q site=%s probe=%q", strings.Join(b, ";"), p.defA, p.defB, p.arg, site, p.probe)
+	return fmt.Sprintf("[%s] caller{a:%v b:%v lateA:%v lateB:%v} arg=%q site=%s probe=%q wrap=%v", strings.Join(b, ";"), p.defA, p.defB, p.lateA, p.lateB, p.arg, site, p.probe, p.wrap)
 }
 
 var kconst = map[string]int{"a": 51, "b": 52}
@@ -111,8 +115,12 @@ func model(p prog, macroFirst bool) verdict {
 			v.ambiguous = why
 		}
 	}
+	late := func(n string) bool { return (n == "a" && p.lateA) || (n == "b" && p.lateB) }
 	// resolve a macro-authored reference
 	resolve := func(s stmt) (m map[string]int, ok bool) {
+		if s.unh && late(s.name) {
+			amb("unhygienic reference to a caller local that is declared but not yet initialised")
+		}
 		_, inM := ms[s.name]
 		_, inC := cs[s.name]
 		if !s.unh {
@@ -144,7 +152,10 @@ func model(p prog, macroFirst bool) verdict {
 	}
 	for _, s := range p.body {
 		switch s.op {
-		case 'D':
+		case 'D', 'V':
+			if _, again := ms[s.name]; again && s.op == 'V' {
+				rej("the macro declares the same local twice") // `var` of an existing local is an error in any Elk scope
+			}
 			ms[s.name] = kconst[s.name]
 		case 'S':
 			if m, ok := resolve(s); ok {
@@ -163,6 +174,9 @@ func model(p prog, macroFirst bool) verdict {
 			for _, n := range names {
 				_, inM := ms[n]
 				_, inC := cs[n]
+				if late(n) {
+					amb("caller argument naming a caller local that is declared but not yet initialised")
+				}
 				switch {
 				case !s.unh && inM:
 					amb("hygienic splice of caller code naming a macro local")
@@ -195,6 +209,8 @@ func model(p prog, macroFirst bool) verdict {
 	for _, n := range []string{"a", "b"} {
 		if x, ok := cs[n]; ok {
 			v.lines = append(v.lines, fmt.Sprint(x))
+		} else if late(n) {
+			v.lines = append(v.lines, fmt.Sprint(cinit[n])) // assigned by the caller after the call
 		}
 	}
 	if p.probe != "" {
@@ -215,6 +231,8 @@ func stmtSrc(s stmt, rename func(string) string) string {
 	switch s.op {
 	case 'D':
 		return fmt.Sprintf("%s := %d", n, kconst[s.name])
+	case 'V':
+		return fmt.Sprintf("var %s: Int = %d", n, kconst[s.name])
 	case 'S':
 		return fmt.Sprintf("%s = %s + 100", n, n)
 	case 'P':
@@ -234,11 +252,23 @@ func callSite(p prog, k int64, call []string) string {
 	if p.defB {
 		l = append(l, "b := 2")
 	}
+	if p.lateA {
+		l = append(l, "var a: Int")
+	}
+	if p.lateB {
+		l = append(l, "var b: Int")
+	}
 	l = append(l, call...)
-	if p.defA {
+	if p.lateA {
+		l = append(l, "a = 1")
+	}
+	if p.defA || p.lateA {
 		l = append(l, "println(a)")
 	}
-	if p.defB {
+	if p.lateB {
+		l = append(l, "b = 2")
+	}
+	if p.defB || p.lateB {
 		l = append(l, "println(b)")
 	}
 	if p.probe != "" {
@@ -265,6 +295,9 @@ func macroProgram(p prog) string {
 	k := uniq()
 	var b strings.Builder
 	b.WriteString("using Std::Elk::AST::*\n")
+	if p.wrap {
+		fmt.Fprintf(&b, "def y%d: bool then true\n", k)
+	}
 	param := ""
 	if p.arg != "" {
 		param = "(x: ExpressionNode)"
@@ -285,8 +318,17 @@ func macroProgram(p prog) string {
 		}
 	}
 	b.WriteString("  quote\n")
+	if p.wrap {
+		fmt.Fprintf(&b, "    if y%d()\n", k)
+	}
 	for _, x := range q {
+		if p.wrap {
+			b.WriteString("  ")
+		}
 		b.WriteString("    " + x + "\n")
+	}
+	if p.wrap {
+		b.WriteString("    end\n")
 	}
 	b.WriteString("  end\nend\n")
 	call := fmt.Sprintf("m%d!()", k)
@@ -306,7 +348,7 @@ func handProgram(p prog) string {
 	mren := func(n string) string { return n + "__m" }
 	for _, s := range p.body {
 		switch s.op {
-		case 'D':
+		case 'D', 'V':
 			ms[s.name] = true
 			l = append(l, "  "+stmtSrc(s, mren))
 		case 'S', 'P':
@@ -326,16 +368,29 @@ func handProgram(p prog) string {
 // printedProgram: the printed expansion `do macro … end` (bodies without unhygienic references and without parameter)
 func printedProgram(p prog) string {
 	var l []string
+	k := uniq()
 	l = append(l, "do macro")
+	ind := "  "
+	if p.wrap {
+		l = append(l, fmt.Sprintf("  if yp%d()", k))
+		ind = "    "
+	}
 	for _, s := range p.body {
 		if s.op == 'X' {
-			l = append(l, "  println("+p.arg+")")
+			l = append(l, ind+"println("+p.arg+")")
 		} else {
-			l = append(l, "  "+stmtSrc(s, ident))
+			l = append(l, ind+stmtSrc(s, ident))
 		}
 	}
+	if p.wrap {
+		l = append(l, "  end")
+	}
 	l = append(l, "end")
-	return callSite(p, uniq(), l)
+	pre := ""
+	if p.wrap {
+		pre = fmt.Sprintf("def yp%d: bool then true\n", k)
+	}
+	return pre + callSite(p, k, l)
 }
 
 // ---------------------------------------------------------------------------------------------------------------
@@ -395,6 +450,7 @@ func eqLines(a, b []string) bool {
 }
 
 var numRe = regexp.MustCompile(`\d+`)
+var nameRe = regexp.MustCompile("`[ab]`")
 var locRe = regexp.MustCompile(`^p\.elk:\d+:\d+: `)
 
 // judge returns the violation kind of an observation against the model ("" = agrees)
@@ -408,7 +464,7 @@ func judge(p prog, o observed) string {
 	case v.reject && !o.rejected:
 		return "accepted but must be rejected: " + v.why
 	case !v.reject && o.rejected:
-		return "rejected but must be accepted: " + numRe.ReplaceAllString(locRe.ReplaceAllString(firstLine(o.diag), ""), "N")
+		return "rejected but must be accepted: " + nameRe.ReplaceAllString(numRe.ReplaceAllString(locRe.ReplaceAllString(firstLine(o.diag), ""), "N"), "`n`")
 	case v.reject:
 		return ""
 	case o.err != "":
@@ -476,6 +532,20 @@ func canonShape(p prog) string {
 	if p.probe != "" {
 		s += " reads " + nm(p.probe) + " after the call"
 	}
+	var ld []string
+	if p.lateA {
+		ld = append(ld, nm("a"))
+	}
+	if p.lateB {
+		ld = append(ld, nm("b"))
+	}
+	if len(ld) > 0 {
+		sort.Strings(ld)
+		s += " caller-declares-uninitialised={" + strings.Join(ld, ",") + "}"
+	}
+	if p.wrap {
+		s += " body-wrapped-in-if"
+	}
 	return s
 }
 
@@ -492,13 +562,16 @@ func valid(p prog) bool {
 	if hasX(p) != (p.arg != "") {
 		return false
 	}
+	if (p.defA && p.lateA) || (p.defB && p.lateB) {
+		return false
+	}
 	if p.probe != "" {
-		if (p.probe == "a" && p.defA) || (p.probe == "b" && p.defB) {
+		if (p.probe == "a" && (p.defA || p.lateA)) || (p.probe == "b" && (p.defB || p.lateB)) {
 			return false
 		}
 		ok := false
 		for _, s := range p.body {
-			if s.op == 'D' && s.name == p.probe {
+			if (s.op == 'D' || s.op == 'V') && s.name == p.probe {
 				ok = true
 			}
 		}
@@ -532,6 +605,21 @@ func smallerProgs(p prog) []prog {
 	if p.defB {
 		q := p
 		q.defB = false
+		out = append(out, q)
+	}
+	if p.wrap {
+		q := p
+		q.wrap = false
+		out = append(out, q)
+	}
+	if p.lateA {
+		q := p
+		q.lateA = false
+		out = append(out, q)
+	}
+	if p.lateB {
+		q := p
+		q.lateB = false
 		out = append(out, q)
 	}
 	if p.arg == "a + b" {
@@ -649,7 +737,7 @@ func signature(p prog, kind string) (string, prog) {
 func alphabet() []stmt {
 	var a []stmt
 	for _, n := range []string{"a", "b"} {
-		a = append(a, stmt{'D', n, false}, stmt{'S', n, false}, stmt{'S', n, true}, stmt{'P', n, false}, stmt{'P', n, true})
+		a = append(a, stmt{'D', n, false}, stmt{'V', n, false}, stmt{'S', n, false}, stmt{'S', n, true}, stmt{'P', n, false}, stmt{'P', n, true})
 	}
 	a = append(a, stmt{'X', "", false}, stmt{'X', "", true})
 	return a
@@ -683,21 +771,25 @@ func variants(body []stmt) []prog {
 	}
 	defs := map[string]bool{}
 	for _, s := range body {
-		if s.op == 'D' {
+		if s.op == 'D' || s.op == 'V' {
 			defs[s.name] = true
 		}
 	}
-	for _, da := range []bool{false, true} {
-		for _, db := range []bool{false, true} {
-			for _, arg := range args {
-				for _, m := range []bool{false, true} {
-					p := prog{body: body, defA: da, defB: db, arg: arg, method: m}
-					out = append(out, p)
-					for _, pr := range []string{"a", "b"} {
-						q := p
-						q.probe = pr
-						if defs[pr] && valid(q) {
-							out = append(out, q)
+	// caller state of a name: 0 = not declared, 1 = defined before the call, 2 = declared uninitialised before the call
+	// and assigned after it; wrap: the quoted body inside `if`
+	for _, sa := range []int{0, 1, 2} {
+		for _, sb := range []int{0, 1, 2} {
+			for _, wrap := range []bool{false, true} {
+				for _, arg := range args {
+					for _, m := range []bool{false, true} {
+						p := prog{body: body, defA: sa == 1, defB: sb == 1, lateA: sa == 2, lateB: sb == 2, wrap: wrap, arg: arg, method: m}
+						out = append(out, p)
+						for _, pr := range []string{"a", "b"} {
+							q := p
+							q.probe = pr
+							if defs[pr] && valid(q) {
+								out = append(out, q)
+							}
 						}
 					}
 				}
@@ -713,8 +805,8 @@ func main() {
 	engine.Main(&engine.Spec{
 		Prop:  "C31",
 		Level: "exploration",
-		Rule: "every macro with a quoted body of 1..2 (thorough: 1..3) statements over {n := K, n = n + 100, println(n), println(!{x})}, n ∈ {a, b}, every reference hygienic or wrapped in unhygienic (12 statement forms) " +
-			"× caller defines none/a/b/both before the call and prints them after it × argument {a, a + b, 7} (bodies with !{x}) × call site {top-level block, method} × probe reading a macro-defined name after the call; each program run alone under a unique macro name. " +
+		Rule: "every macro with a quoted body of 1..2 (thorough: 1..3) statements over {n := K, var n: Int = K, n = n + 100, println(n), println(!{x})}, n ∈ {a, b}, every reference hygienic or wrapped in unhygienic (14 statement forms) " +
+			"× every caller state of a and b (not declared / defined before the call / declared uninitialised before the call and assigned after it), printed after the call × quoted body plain or wrapped in an `if` × argument {a, a + b, 7} (bodies with !{x}) × call site {top-level block, method} × probe reading a macro-defined name after the call; each program run alone under a unique macro name. " +
 			"Oracle: reference model of the hand-expanded program with the macro's locals renamed apart; validated by running the hand-expanded renamed program and the printed expansion `do macro … end` through Elk. A program is non-trivial when the model decides it; programs the statement leaves open are counted",
 		Assume:      []string{"caller code (the macro argument) always means the caller's variables; inside `unhygienic` a name the caller defines is the caller's", "what a macro-authored unhygienic reference means when the macro has a local of that name is not stated: counted, not judged", "a hygienically spliced argument that names a macro local is not stated: counted"},
 		Setup:       func(c *engine.Ctx) { elkrun.Init() },
